@@ -199,7 +199,10 @@ theorem nexec_db (n : Node) (op : NOp) : ∃ evs, (nexec n op).db = (appendAll n
     | none => exact ⟨[], rfl⟩
     | some es => exact ⟨es, rfl⟩
   | nd r =>
-    simp only [nexec, nstep]
+    simp only [nexec, nstepP]
+    split
+    · exact ⟨[], rfl⟩
+    simp only [nstep]
     cases normalize r with
     | none => exact ⟨[], rfl⟩
     | some e =>
@@ -213,9 +216,9 @@ theorem nexec_db (n : Node) (op : NOp) : ∃ evs, (nexec n op).db = (appendAll n
         split
         · exact ⟨[], rfl⟩
         · exact ⟨_, rfl⟩
-      case open_ => cases admit n.cache n.cap e.msg <;> exact ⟨[], rfl⟩
-      case delta => cases admit n.cache n.cap e.msg <;> exact ⟨[], rfl⟩
-      case snapshot => cases admit n.cache n.cap e.msg <;> exact ⟨[], rfl⟩
+      case open_ => cases admitSession n.cache n.cap e.msg <;> exact ⟨[], rfl⟩
+      case delta => cases admitSession n.cache n.cap e.msg <;> exact ⟨[], rfl⟩
+      case snapshot => cases admitSession n.cache n.cap e.msg <;> exact ⟨[], rfl⟩
       all_goals exact ⟨[_], (appendAll_single _ _).symm⟩
 
 theorem nrun_ext (h : List NOp) (n : Node) (hb : Bounded n.db) :
